@@ -290,7 +290,7 @@ fn stay_client(p: &Stay, env: &Env) -> Option<Outcome> {
     }
     if let Some(w) = p.warm {
         env.open_gate(w);
-        if conn.send(&mk_req("/gated", w, 100, 0, 0).encode()).is_err() {
+        if conn.send(&mk_req(env.ctx.instance, "/gated", w, 100, 0, 0).encode()).is_err() {
             return None;
         }
         let o = read_and_verify(&mut conn, w, 100, WD_READ);
@@ -304,7 +304,7 @@ fn stay_client(p: &Stay, env: &Env) -> Option<Outcome> {
         env.open_gate(p.uid);
     }
     let uid = p.uid;
-    let bytes = mk_req(p.path, uid, p.size, p.k, p.step_us).encode();
+    let bytes = mk_req(env.ctx.instance, p.path, uid, p.size, p.k, p.step_us).encode();
     env.log.push("C_SEND", uid, bytes.len() as i64, "");
     if conn.send(&bytes).is_err() {
         return None;
@@ -333,7 +333,7 @@ fn idle_client(used: bool, env: &Env) {
     if used {
         let w = next_uid();
         env.open_gate(w);
-        if conn.send(&mk_req("/gated", w, 10, 0, 0).encode()).is_err() {
+        if conn.send(&mk_req(env.ctx.instance, "/gated", w, 10, 0, 0).encode()).is_err() {
             return;
         }
         let o = read_and_verify(&mut conn, w, 10, WD_READ);
@@ -367,7 +367,7 @@ fn idle_client(used: bool, env: &Env) {
 fn half_client(p: &Half, env: &Env) -> Option<Outcome> {
     let mut ready = Ready(env.ready, false);
     let mut conn = env.connect("half")?;
-    let bytes = mk_req("/gated", p.uid, 500, 0, 0).encode();
+    let bytes = mk_req(env.ctx.instance, "/gated", p.uid, 500, 0, 0).encode();
     let cut = 1 + (p.cut_permille as usize * (bytes.len() - 2)) / 1000;
     env.log.push("C_SEND", p.uid, cut as i64, "partial");
     if conn.send(&bytes[..cut]).is_err() {
@@ -406,7 +406,7 @@ fn left_client(p: &Left, env: &Env) {
     let Some(mut conn) = env.connect("left") else { return };
     let uid = p.uid;
     let path = if p.stepping { "/stepping" } else { "/gated" };
-    let bytes = mk_req(path, uid, 64, 2, 700).encode();
+    let bytes = mk_req(env.ctx.instance, path, uid, 64, 2, 700).encode();
     env.log.push("C_SEND", uid, bytes.len() as i64, "");
     if conn.send(&bytes).is_err() {
         return;
@@ -433,7 +433,7 @@ fn late_client(p: &Late, env: &Env) {
         }
     };
     env.open_gate(p.uid);
-    let bytes = mk_req("/gated", p.uid, 64, 0, 0).encode();
+    let bytes = mk_req(env.ctx.instance, "/gated", p.uid, 64, 0, 0).encode();
     env.log.push("C_SEND", p.uid, bytes.len() as i64, "late");
     // unjudged population (only counted): a shorter bound is enough
     let o = if conn.send(&bytes).is_ok() {
@@ -448,7 +448,7 @@ fn late_client(p: &Late, env: &Env) {
 fn panic_client(uid: u64, env: &Env) -> Option<Outcome> {
     let _ready = Ready(env.ready, false);
     let mut conn = env.connect("panic")?;
-    if conn.send(&mk_req("/panicking", uid, 10, 0, 0).encode()).is_err() {
+    if conn.send(&mk_req(env.ctx.instance, "/panicking", uid, 10, 0, 0).encode()).is_err() {
         return None;
     }
     let o = read_and_verify(&mut conn, uid, 10, WD_READ);
@@ -456,30 +456,32 @@ fn panic_client(uid: u64, env: &Env) -> Option<Outcome> {
     Some(o)
 }
 
-/// is there a LISTEN socket on 127.0.0.1:port, and does it belong to us?
-fn our_listener_on(port: u16) -> Option<bool> {
-    let tcp = std::fs::read_to_string("/proc/net/tcp").ok()?;
+/// who holds a LISTEN socket on 127.0.0.1:port: "ours" (this process),
+/// "foreign" (another process), "none", or "unknown" (/proc unreadable)
+fn listener_owner(port: u16) -> &'static str {
+    let Ok(tcp) = std::fs::read_to_string("/proc/net/tcp") else { return "unknown" };
     let want = format!("0100007F:{port:04X}");
+    let any = format!("00000000:{port:04X}");
     let mut inodes = vec![];
     for l in tcp.lines().skip(1) {
         let f: Vec<&str> = l.split_whitespace().collect();
-        if f.len() > 9 && f[1] == want && f[3] == "0A" {
+        if f.len() > 9 && (f[1] == want || f[1] == any) && f[3] == "0A" {
             inodes.push(f[9].to_string());
         }
     }
     if inodes.is_empty() {
-        return Some(false);
+        return "none";
     }
-    for e in std::fs::read_dir("/proc/self/fd").ok()? {
-        let Ok(e) = e else { continue };
+    let Ok(rd) = std::fs::read_dir("/proc/self/fd") else { return "unknown" };
+    for e in rd.flatten() {
         if let Ok(t) = std::fs::read_link(e.path()) {
             let t = t.to_string_lossy().to_string();
             if inodes.iter().any(|i| t == format!("socket:[{i}]")) {
-                return Some(true);
+                return "ours";
             }
         }
     }
-    Some(false)
+    "foreign"
 }
 
 pub struct Hang {
@@ -950,16 +952,19 @@ fn port_probe(
                 log.push("PORT_PROBE", 0, 0, "accepted by a newer harness server");
                 return ("port-reused-by-other-server".into(), None);
             }
-            let ours = our_listener_on(addr.port());
+            let owner = listener_owner(addr.port());
             drop(g);
-            log.push("PORT_PROBE", 0, 0, &format!("accepted, no answer ({e:?}), own listener: {ours:?}"));
-            match ours {
-                Some(true) => (
+            log.push("PORT_PROBE", 0, 0, &format!("accepted, no answer ({e:?}), listener owner: {owner}"));
+            match owner {
+                "ours" => (
                     "still-listening".into(),
                     Some(json!({"sig": format!("C17:{m}:port-still-listening-after-close"),
                                 "ident": ident,
                                 "what": "after close() returned the old address still accepts connections: a LISTEN socket on it belongs to this process although no live harness server owns that port"})),
                 ),
+                // the old listener lived in this process: a listener owned by
+                // another process is not it
+                "foreign" => ("port-reused-by-foreign-process".into(), None),
                 _ => ("inconclusive-accepted-by-unknown".into(), None),
             }
         }
